@@ -92,7 +92,11 @@ impl QuorumWaiter {
                     let mut total_stake = self.stake;
                     while let Some(stake) = wait_for_quorum.next().await {
                         total_stake += stake;
+                        #[cfg(hotstuff_verif)]
+                        network::simnet::emit(format!("\"ev\":\"QWAck\",\"stake\":{},\"total\":{}", stake, total_stake));
                         if total_stake >= self.committee.quorum_threshold() {
+                            #[cfg(hotstuff_verif)]
+                            network::simnet::emit(format!("\"ev\":\"QWRelease\",\"total\":{},\"len\":{}", total_stake, batch.len()));
                             self.tx_batch
                                 .send(batch)
                                 .await
